@@ -223,6 +223,24 @@ Theorem C19_fileobj_untouched : forall pint pflt pval fs h dt,
 Proof. exact fileobj_untouched. Qed.
 Print Assumptions C19_fileobj_untouched.
 
+(** ** The decidable statement evaluated by the generated cases
+    ([surfer_holds], Model/Surfer.v) against the theorems: a file it calls
+    well-formed loads; an observed output that agrees with the model (same
+    Ok / error class, values, coordinates within tolerance, attributes,
+    handle states) satisfies it.  So a reported violation is a behaviour that
+    the model - about which everything above is proved - does not have. *)
+Theorem C19_well_formed_loads : forall pint pflt pval fileattr dt f,
+  well_formed pint pflt pval dt f = Yes ->
+  exists g, read_lines pint pflt pval fileattr dt f = Ok g.
+Proof. exact well_formed_loads. Qed.
+Print Assumptions C19_well_formed_loads.
+
+Theorem C19_agree_implies_holds : forall pint pflt pval dt f src ob,
+  outcome_agrees (load_surfer pint pflt pval (fst (model_source f src)) (snd (model_source f src)) dt) ob = true ->
+  snd (surfer_holds pint pflt pval dt f src ob) = true.
+Proof. exact agree_implies_holds. Qed.
+Print Assumptions C19_agree_implies_holds.
+
 (** ** Non-vacuity: a 2 x 3 file with irregular whitespace and one blank *)
 Definition ex_int := lookup [("2", Some 2%Z); ("3", Some 3%Z); ("6", Some 6%Z)].
 Definition ex_flt := lookup [("0", Some (Fin (0, 0)%Z)); ("1", Some (Fin (1, 0)%Z));
